@@ -7,6 +7,7 @@
 From Coq Require Import ZArith QArith List Permutation Bool.
 From FV Require Import Common.NanQ Common.QVec Common.WMean gen.Gen_tree_util gen.Gen_fed_avg Model.C01_Model Proofs.C01_Proofs
   Proofs.C01_Gen_Proofs.
+From FV Require gen.Gen_tree_l2 gen.Gen_client_datasets.
 Import ListNotations.
 Local Open Scope Q_scope.
 
@@ -176,6 +177,35 @@ Theorem C01_evaluated_instance_is_source_apply :
   Gen_fed_avg.apply batch_grad split_key (fun q => vzero (length q)) (sgd_apply co) srv fst snd st (map as_tuple clients).
 Proof. exact ls_apply_is_gen_apply. Qed.
 
+(* further translated pieces: the diagnostics value of the model is the square of tree_l2_norm; init; the wiring *)
+Theorem C01_diagnostics_value_is_squared_l2_norm : forall v, Gen_tree_l2.tree_l2_norm_squared v = sumsq v.
+Proof. exact gen_l2_norm_squared_is_sumsq. Qed.
+
+Theorem C01_source_init_and_wiring : forall {OS : Type} (sinit : list Q -> OS) p,
+  Gen_fed_avg.init sinit p = (p, sinit p) /\ Gen_fed_avg.fed_avg_wiring = true.
+Proof. exact (fun OS sinit p => conj (gen_fedavg_init sinit p) gen_fedavg_wiring). Qed.
+
+(* batching hyper-parameters: the number of local steps a client takes (translated from
+   ShuffleRepeatBatchView.__init__; C01_agree checks every recorded stream against it) is the documented one *)
+Theorem C01_client_step_count_is_documented : forall N bs e s (drop : bool),
+  Gen_client_datasets.shuffle_num_steps N bs e s drop =
+  Some (match e with
+        | Some e => let full := (if drop then (N * e) / bs else (N * e + bs - 1) / bs)%Z in
+                    Some (match s with Some s => Z.min s full | None => full end)
+        | None => s
+        end).
+Proof. exact shuffle_num_steps_documented. Qed.
+
+(* the hypotheses of the round theorems are satisfiable: a concrete cohort with distinct ids and shape-preserving
+   local training (wf_round), one client without examples *)
+Example C01_hypotheses_satisfiable :
+  let co := mkSgd (1 # 2) (1 # 2) true in
+  wf_round (ls_init co) (ls_step co) s_params 2 [0; 1]
+    [mkClient 7%Z 2%Z [0; 0] [[([1; 0], 1); ([0; 1], 1)]]; mkClient 3%Z 0%Z [] []; mkClient 5%Z 1%Z [1 # 4] [[([1; 1], 0)]]].
+Proof.
+  split; [repeat constructor; cbn; intuition discriminate|]. split; [reflexivity|]. repeat constructor.
+Qed.
+
 (* non-vacuity: two clients with 2 and 1 examples, one round, SGD(1/2) clients, SGD(1) server *)
 Example C01_example :
   let co := mkSgd (1 # 2) 0 false in
@@ -204,3 +234,6 @@ Print Assumptions C01_ls_multi_round.
 Print Assumptions C01_ls_multi_round_order_independent.
 Print Assumptions C01_source_apply_is_the_model.
 Print Assumptions C01_evaluated_instance_is_source_apply.
+Print Assumptions C01_diagnostics_value_is_squared_l2_norm.
+Print Assumptions C01_source_init_and_wiring.
+Print Assumptions C01_client_step_count_is_documented.
